@@ -199,6 +199,8 @@ class Machine(object):
         cfg = {"sub": "hpke", "curve": rng.choice(["p256", "p384", "p521", "curve25519", "curve448"]),
                "aead": rng.choice([1, 2, 3]), "seed": s, "ptlen": rng.choice([0, 1, 16, 40])}
         ops = [["seal"] for _ in range(rng.randrange(2, 12))]
+        for _ in range(rng.randrange(0, 3)):
+            ops.insert(rng.randrange(0, len(ops) + 1), ["bad_unseal", rng.choice([0, 5, 16, 40])])
         if rng.random() < 0.6:
             ops.insert(rng.randrange(0, len(ops)), ["jump", rng.choice([0, 1, 2, 3])])
         return {"config": cfg, "ops": ops}
@@ -339,8 +341,9 @@ class Machine(object):
         obj = ChaCha20.new(key=key, nonce=nonce)
         nblocks = 1 << 64 if len(nonce) == 8 else 1 << 32
         end = nblocks * 64
-        pos = 0              # model position; None = unknown (after a refused seek)
-        failed_at = None     # set after a limit exception: candidate positions for a tolerated continuation
+        pos = 0              # model position; None = unknown (after a refused seek to the tolerated last block)
+        failed_at = None     # set after a limit exception / refused seek: candidate positions for a tolerated continuation
+        after_refused_seek = False
         ctx.state(("chacha", len(nonce)))
         for op in case["ops"]:
             ctx.step()
@@ -363,7 +366,11 @@ class Machine(object):
                                     "seek(%d) beyond the last block (%d blocks) succeeded; the position silently wraps" % (p, nblocks),
                                     observed="success", expected="exception")
                     ctx.probe("chacha_seek_beyond_end_refused")
-                    pos, failed_at = None, None
+                    # a refused seek must not move the object anywhere: whatever comes out later has to be an exception
+                    # or key stream for where the object legitimately was (never a wrapped or rewound position)
+                    if failed_at is None and pos is not None:
+                        failed_at = [pos]
+                        after_refused_seek = True
                     continue
                 if err is not None:
                     if blk == nblocks - 1:
@@ -525,6 +532,14 @@ class Machine(object):
         ctx.state(("hpke", cfg["curve"], cfg["aead"]))
         for i, op in enumerate(case["ops"]):
             ctx.step()
+            if op[0] == "bad_unseal":
+                # a call the sending context must refuse; it must not disturb the nonce sequence
+                try:
+                    snd.unseal(data(9, op[1]), aad)
+                    ctx.violate("limit/HPKE/unseal-on-sender-accepted", "unseal() on a sending context succeeded", observed="plaintext", expected="exception")
+                except Exception:
+                    ctx.fault("call.forbidden")
+                continue
             if op[0] == "jump":
                 if not (hasattr(snd, "_sequence") and hasattr(snd, "_max_sequence") and isinstance(snd._sequence, int)):
                     ctx.probe("hpke_jump_unavailable")
